@@ -6,7 +6,11 @@ on both sides): one VM, histories of loads / starts / single steps / aborts with
 ORACLE (the property): a run of a program that never ends by itself is cut: result 2 (runtime_error), state 0 (empty),
 0:60002 logged, and the virtual time it took is at most limit + 5 ticks; the run after it on the same VM executes
 normally however much time passed in between; a short program on an old VM completes; a while loop in unscheduled code
-begins at most `cap` iterations (counter observed from inside the loop)."""
+begins at most `cap` iterations (counter observed from inside the loop).
+C API family (implementation only, harness line "api;.."): the same clauses for an instance created WITH the limit through
+sqfvm_create_instance(_basic) and driven by sqfvm_call / sqfvm_load_config / sqfvm_status - what a run is given does not depend
+on the calls made before it (executing or not: syntax error, preprocessing error, preprocess only, transpile, invalid type, config
+load, status) nor on the time the host let pass between them: expected markers, return value, cut time computed by the generator."""
 import json, os, sys
 import vcommon as V
 import vmcommon as M
@@ -98,6 +102,208 @@ def while_programs(cap):
     return p
 
 
+# ---- the C API family: histories of calls on ONE instance created with the limit (src/export/sqfvm.cpp)
+# an op: ("K", type char, text) | ("G", config text) | ("Q",) | ("J", microseconds)
+# expect: None | ("complete", markers) | ("cut", markers that the run logs before it is cut | None, all markers when it is a finite program)
+API_RET_OK, API_RET_FAILED = 0, -6
+API_EVAL_TICKS = 8      # `a + b` evaluated by __EVAL: three instructions and the bookkeeping of a run
+
+
+def api_noexec(rng):
+    """calls that end before anything executes (name, op): whatever they do inside, they are no run"""
+    a, b = rng.randint(1, 40), rng.randint(1, 40)
+    return rng.choice([
+        ("syntax_error", ("K", "s", "diag_log (%d +" % a)),
+        ("syntax_error_late", ("K", "s", "diag_log %d; x = [%d, ; diag_log 3" % (a, b))),
+        ("syntax_error_after_eval", ("K", "s", "diag_log __EVAL(%d + %d) +" % (a, b))),
+        ("pp_error", ("K", "s", "#bogus\ndiag_log %d" % a)),
+        ("pp_error_open_ifdef", ("K", "s", "#ifdef X\ndiag_log %d" % a)),
+        ("pp_error_after_eval", ("K", "s", "x = __EVAL(%d + %d);\n#bogus\n" % (a, b))),
+        ("preprocess_only", ("K", "p", "#define ONE %d\ndiag_log ONE" % a)),
+        ("preprocess_only_plain", ("K", "p", "diag_log %d" % a)),
+        ("preprocess_only_eval", ("K", "p", "a __EVAL(%d + %d) b" % (a, b))),
+        ("preprocess_only_fails", ("K", "p", "#bogus\n%d" % a)),
+        ("transpile", ("K", "1", "diag_log %d" % a)),
+        ("transpile_syntax_error", ("K", "1", "diag_log (%d" % a)),
+        ("invalid_type", ("K", rng.choice(["x", "S", "c", "2", "P", " "]), "diag_log %d" % a)),
+        ("invalid_type_pp_error", ("K", "x", "#bogus\n%d" % a)),
+        ("config_load", ("G", "class A%d { x = %d; };" % (a, b))),
+        ("config_syntax_error", ("G", "class A%d { x = %d; " % (a, b))),
+        ("config_pp_error", ("G", "#bogus\nclass A {};")),
+        ("status", ("Q",)),
+    ])
+
+
+def api_straight(n, base):
+    return "; ".join("diag_log %d" % (base + k) for k in range(1, n + 1)), [str(base + k) for k in range(1, n + 1)]
+
+
+API_ENDLESS = [   # (name, text with %d = a number to log first, markers the run logs before it is cut as offsets of that number)
+    ("spawned_while_empty", "diag_log %d; [] spawn { while {true} do {} }; diag_log (%d + 1)", [0, 1]),
+    ("spawned_while_body", "diag_log %d; [] spawn { _a = 0; while {true} do { _a = _a + 1 } }; diag_log (%d + 1)", [0, 1]),
+    ("for_step0", "diag_log %d; for \"_i\" from 0 to 1 step 0 do {}; diag_log (%d + 1)", [0]),
+    ("for_step0_body", "diag_log %d; _a = 0; for \"_i\" from 0 to 1 step 0 do { _a = _a + 1 }; diag_log (%d + 1)", [0]),
+    ("spawned_for_step0", "diag_log %d; [] spawn { for \"_i\" from 0 to 1 step 0 do {} }; diag_log (%d + 1)", [0, 1]),
+    ("for_in_foreach", "diag_log %d; { for \"_i\" from 0 to 1 step 0 do {} } forEach [1, 2]; diag_log (%d + 1)", [0]),
+    ("for_in_isnil", "diag_log %d; isNil { for \"_i\" from 0 to 1 step 0 do {} }; diag_log (%d + 1)", [0]),
+    ("recursion_call", "diag_log %d; ff = { call ff }; call ff; diag_log (%d + 1)", [0]),
+    ("mutual_spawn", "diag_log %d; ff = { [] spawn gg }; gg = { [] spawn ff }; [] spawn ff; diag_log (%d + 1)", [0, 1]),
+    ("sleep_loop", "diag_log %d; [] spawn { while {true} do { sleep 1 } }; diag_log (%d + 1)", [0, 1]),
+    ("sleep_long", "diag_log %d; [] spawn { sleep 5000; diag_log 999 }; diag_log (%d + 1)", [0, 1]),
+    ("eval_then_spawned_while", "diag_log __EVAL(%d + 0); [] spawn { while {true} do {} }; diag_log (%d + 1)", [0, 1]),
+]
+
+
+def api_exec(rng, units, base, which=None):
+    """an executing call: (name, op, expect). units = limit / tick: every instruction costs at least one tick, a statement
+    `diag_log n` is three instructions."""
+    which = which or rng.choice(["short", "short", "medium", "medium", "eval", "silent", "endless", "endless", "long"])
+    if which == "short":
+        t, m = api_straight(rng.randint(1, 3), base)
+        return which, ("K", "s", t), ("complete", m)
+    if which == "medium":       # needs 50 .. 80 % of the limit for itself
+        t, m = api_straight(max(1, units * rng.randint(50, 80) // 300), base)
+        return which, ("K", "s", t), ("complete", m)
+    if which == "eval":
+        a, b = rng.randint(1, 40), rng.randint(1, 40)
+        return which, ("K", "s", "#define TWO 2\ndiag_log __EVAL(%d + %d); diag_log (%d * TWO)" % (a, b, base)), ("complete", [str(a + b), str(base * 2)])
+    if which == "silent":
+        return which, ("K", "s", "x%d = %d; diag_log x%d" % (base, base, base)), ("complete", [str(base)])
+    if which == "long":         # a finite program of 1.5 .. 3 limits: cut like an endless one
+        t, m = api_straight(rng.randint(units // 2 + 2, units), base)
+        return which, ("K", "s", t), ("cut", None, m)
+    nm, text, offs = rng.choice(API_ENDLESS)
+    return "endless:" + nm, ("K", "s", text % (base, base)), ("cut", [str(base + o) for o in offs], None)
+
+
+def api_histories(rng, thorough):
+    cases = []
+    cfgs = [(400, 1000), (100, 250), (60, 500), (2000, 10000), (30, 100)] + ([(1000, 1000), (45, 300), (5000, 50000)] if thorough else [])
+
+    def idles(lim):
+        return [0, lim // 10, lim // 2, lim * 9 // 10, lim, lim + lim // 10, 3 * lim, 50 * lim, 100000 * lim]
+
+    def mk(name, mx, tick, set_, pairs):
+        cases.append({"kind": "api", "name": name, "cfg": (mx, tick, set_), "hist": [p[0] for p in pairs], "expect": [p[1] for p in pairs]})
+
+    # 1. the shape: [something before], a call that executes nothing, idle time, a run, then a short run and an endless run
+    #    every idle time x what came before x what kind of run comes after, the call that executes nothing drawn at random
+    for rep in range(6 if thorough else 1):
+        for before in ["nothing", "run", "cut_run", "idle", "noexec"]:
+            for after in ["short", "medium", "eval", "silent", "endless", "long"]:
+                for ii in range(9):
+                    mx, tick = rng.choice(cfgs)
+                    lim, units = mx * 1000, mx * 1000 // tick
+                    idle = idles(lim)[ii]
+                    pairs = []
+                    if before == "run":
+                        _, op, ex = api_exec(rng, units, 100, "short"); pairs.append((op, ex))
+                    elif before == "cut_run":
+                        _, op, ex = api_exec(rng, units, 100, "endless"); pairs.append((op, ex))
+                    elif before == "idle":
+                        pairs.append((("J", rng.choice(idles(lim)[2:])), None))
+                    elif before == "noexec":
+                        pairs += [(api_noexec(rng)[1], None), (("J", rng.choice(idles(lim))), None)]
+                    nm, nop = api_noexec(rng)
+                    pairs.append((nop, None))
+                    if idle:
+                        pairs.append((("J", idle), None))
+                    n2, op, ex = api_exec(rng, units, 200, after); pairs.append((op, ex))
+                    _, op, ex = api_exec(rng, units, 300, "short"); pairs.append((op, ex))
+                    _, op, ex = api_exec(rng, units, 400, "endless"); pairs.append((op, ex))
+                    pairs.append((("Q",), None))
+                    mk("%s; %s; idle %d us; %s" % (before, nm, idle, n2), mx, tick, rng.choice(["full", "basic"]), pairs)
+    # 2. random histories of 3 .. 9 calls of every kind with idle times between them
+    for i in range(2000 if thorough else 130):
+        mx, tick = rng.choice(cfgs)
+        lim, units = mx * 1000, mx * 1000 // tick
+        pairs, names = [], []
+        for k in range(rng.randint(3, 9)):
+            if rng.random() < 0.45:
+                nm, op = api_noexec(rng); ex = None
+            else:
+                nm, op, ex = api_exec(rng, units, 100 * (k + 1))
+            pairs.append((op, ex)); names.append(nm)
+            if rng.random() < 0.6:
+                pairs.append((("J", rng.choice(idles(lim)[1:])), None))
+        if not any(e for _, e in pairs):
+            _, op, ex = api_exec(rng, units, 1000, "medium"); pairs.append((op, ex))
+        mk("random%d: %s" % (i, ", ".join(names)), mx, tick, rng.choice(["full", "basic"]), pairs)
+    return cases
+
+
+def api_line(c):
+    mx, tick, set_ = c["cfg"]
+    cs = []
+    for op in c["hist"]:
+        if op[0] == "K":
+            cs.append("K%s:%s" % (V.hx(op[1].encode("latin-1")), V.hx(op[2].encode("latin-1"))))
+        elif op[0] == "G":
+            cs.append("G" + V.hx(op[1].encode("latin-1")))
+        elif op[0] == "J":
+            cs.append("J%d" % op[1])
+        else:
+            cs.append("Q")
+    return "api;%d;%d;%s\t%s" % (mx, tick, set_, "@".join(cs))
+
+
+def api_judge(c, out, stats):
+    """the property on one C API history; returns None or the text of the violation"""
+    mx, tick, set_ = c["cfg"]
+    lim = mx * 1000
+    obs = out.split("\t")[0].split("|") if "\t" in out else []
+    c["impl"] = [o[:600] for o in obs] if obs else [out[:300]]
+    if len(obs) != len(c["hist"]):
+        return "the history of C API calls did not come back: %s" % out.replace("\t", " ")[:160]
+    age = 0
+    for n, (op, exp, o) in enumerate(zip(c["hist"], c["expect"], obs)):
+        if op[0] == "J":
+            continue
+        if op[0] == "Q":
+            if o != "Q0":
+                return "call %d: sqfvm_status reports %s between the calls, the instance must be empty" % (n, o[1:])
+            continue
+        f = o[1:].split(":", 3)
+        try:
+            ret, status = int(f[0]), int(f[1])
+            t0, t1 = [int(x) for x in f[2].split("-")]
+            events = f[3]
+        except (ValueError, IndexError):
+            return "call %d did not come back: %s" % (n, o[:100])
+        took = t1 - t0
+        marks = SC.markers(events)
+        tl = "TL," in events
+        what = "call %d (sqfvm_call type %r, instance %d us old)" % (n, op[1], t0) if op[0] == "K" else "call %d (sqfvm_load_config)" % n
+        # an __EVAL(..) in the text is evaluated while the text is preprocessed: a short run of its own before the run of the call
+        evals = op[-1].count("__EVAL") if op[0] in ("K", "G") else 0
+        if took > lim + (SLACK_TICKS + API_EVAL_TICKS * evals) * tick:
+            return "%s took %d us of virtual time, the limit is %d us (tick %d)" % (what, took, lim, tick)
+        if tl and (ret != API_RET_FAILED or status != 0):
+            return "%s logged 'maximum runtime reached' but returns %d and leaves status %d" % (what, ret, status)
+        if tl and took < lim - 1000:
+            return ("%s was aborted by the time limit %d us after it began: the limit of %d us is measured from the start of the run" % (what, took, lim))
+        if exp is None:
+            stats["noexec"] = stats.get("noexec", 0) + 1
+            stats.setdefault("noexec_returns", {}).setdefault(str(ret), 0)
+            stats["noexec_returns"][str(ret)] += 1
+            continue
+        if exp[0] == "complete":
+            stats["complete"] = stats.get("complete", 0) + 1
+            if ret != API_RET_OK or status != 0 or tl or marks != list(exp[1]):
+                return ("%s: a program well within the limit did not execute normally: returns %d, status %d, %s, logged %s of %s"
+                        % (what, ret, status, "aborted by the time limit after %d us" % took if tl else "not aborted by the limit", marks[:4], list(exp[1])[:4]))
+        elif exp[0] == "cut":
+            stats["cut"] = stats.get("cut", 0) + 1
+            if ret != API_RET_FAILED or status != 0 or not tl:
+                return "%s: a program that does not end within the limit: returns %d, status %d, 'maximum runtime reached' %s" % (
+                    what, ret, status, "logged" if tl else "not logged")
+            if exp[1] is not None and marks[:len(exp[1])] != list(exp[1]):
+                return "%s: cut by the limit after %d us, but of what the run logs at its start %s only %s came" % (what, took, list(exp[1]), marks[:4])
+            if exp[2] is not None and (marks != list(exp[2])[:len(marks)] or 3 * (len(marks) + 2) * tick < lim - 1000):
+                return "%s: a long program cut by the limit logged %d markers (%s..), not a prefix of its %d that fills the limit" % (what, len(marks), marks[:3], len(exp[2]))
+    return None
+
+
 def last_int_marker(events):
     ms = [m for m in SC.markers(events) if not m.startswith("VALUE ")]
     for m in reversed(ms):
@@ -120,11 +326,16 @@ def main(replay=None):
 
     # a case: dict(kind, hist, cfg=(max_ms, tick_us, max_loop), expect=[per command: None | ("cut",) | ("complete", markers) | ("cap", bound)])
     cases = []
+    api_cases = []
 
     def add(kind, hist, cfg, expect, name=""):
         cases.append({"kind": kind, "hist": hist, "cfg": cfg, "expect": expect, "name": name})
 
-    if replay:
+    if replay and json.load(open(replay))["replay"].get("kind") == "api":
+        r = json.load(open(replay))["replay"]
+        api_cases.append({"kind": "api", "name": r.get("name", ""), "cfg": tuple(r["cfg"]), "hist": [tuple(c) for c in r["hist"]],
+                          "expect": [tuple(e) if e else None for e in r["expect"]]})
+    elif replay:
         r = json.load(open(replay))["replay"]
         add(r.get("kind", "replay"), [tuple(c) for c in r["hist"]], tuple(r["cfg"]), [tuple(e) if e else None for e in r["expect"]], r.get("name", ""))
     else:
@@ -261,6 +472,8 @@ def main(replay=None):
             mx, tick = rng.choice([(1, 100), (1, 37), (2, 100), (1, 250)])
             add("random", [("L", g.program(depth=3, length=4)), ("S",), ("A",), ("J", mx * 7000), ("L", short), ("S",)], (mx, tick, default_cap),
                 [None, ("ends",), None, None, None, ("complete", ["77"])], "random%d" % i)
+        # 8. the C API: histories of calls on ONE instance created with the limit - calls that execute nothing, idle time, runs
+        api_cases += api_histories(rng, thorough)
 
     by_cfg = {}
     for idx, c in enumerate(cases):
@@ -273,6 +486,19 @@ def main(replay=None):
 
     kinds, distinct, samples = {}, set(), []
     ncut = ncomplete = ncap = neval = 0
+    # the C API histories: implementation only, judged by the property
+    api_stats = {}
+    if api_cases:
+        rc, aout, aerr = V.run_lines_parallel([himpl], [api_line(c) for c in api_cases], timeout=3000)
+        for c, o in zip(api_cases, aout):
+            bad = api_judge(c, o, api_stats)
+            kinds["api"] = kinds.get("api", 0) + 1
+            distinct.add((c["name"], c["cfg"], tuple(c["hist"])))
+            if bad:
+                run.violation(bad, {"kind": "api", "name": c["name"], "cfg": list(c["cfg"]), "hist": [list(h) for h in c["hist"]],
+                                    "expect": [list(e) if e else None for e in c["expect"]], "impl": c["impl"],
+                                    "how_to_read": "cfg = limit ms, clock tick us, operator set; hist: K type text = sqfvm_call, G = sqfvm_load_config, Q = sqfvm_status, "
+                                                   "J = the host idles that many us; impl: K<return>:<status after>:<clock before>-<after>:<callbacks>"})
     for c in cases:
         d = c["res"]
         mx, tick, cap = c["cfg"]
@@ -365,21 +591,33 @@ def main(replay=None):
                                        "impl": d["i_obs"][k][:400] if k < len(d["i_obs"]) else None}
             rep["broken"] = "correspondence SchedDefs.run_history (execute2: deadline test, begin_run_if_empty, while behaviour) vs runtime::execute"
             run.violation("implementation and model disagree (property oracle satisfied)", rep, found_input=False)
+    if api_cases:
+        samples.append({"kind": "api", "name": api_cases[0]["name"], "cfg": list(api_cases[0]["cfg"]),
+                        "hist": [[str(x)[:80] for x in h] for h in api_cases[0]["hist"]], "impl": [o[:120] for o in api_cases[0].get("impl", [])]})
     for p in problems:
         run.violation("proof obligation not discharged: " + p, {"broken": p, "theorems": run.cov["theorems"]}, found_input=False)
-    run.cov["evaluations"] = len(cases)
+    run.cov["evaluations"] = len(cases) + len(api_cases)
     run.cov["distinct_nontrivial"] = len(distinct)
     run.cov["rule"] = ("histories on one VM under a virtual clock: every kind of endless program (while/for/forEach/count/apply/switch/try, empty "
                        "and non-empty bodies, scheduled and unscheduled, recursion through call, mutually spawning scripts, sleeping scripts, "
                        "waitUntil) under several limits followed by a short run after a clock jump; random multi-run histories with jumps up "
                        "to 10^6 x limit; later runs on an old VM in which a spawned script sleeps shorter than the limit (several limits and ticks); single steps + pause + start; abort; while loops under caps 1, 2, 7, the default and random caps with "
                        "the counter read inside the loop; random programs cut at a random instruction. A case is distinct by (program texts, "
-                       "limit, tick, cap)")
-    run.cov["input_distribution"] = dict(kinds, runs_cut=ncut, runs_complete=ncomplete, caps_checked=ncap, expressions_evaluated_like_EVAL=neval)
+                       "limit, tick, cap). C API (implementation only): histories of sqfvm_call / sqfvm_load_config / sqfvm_status on one instance "
+                       "created with the limit (5 limits x ticks, full and basic operator set): [nothing | a run | a cut run | idle | a call that "
+                       "executes nothing] then one of 18 kinds of call that executes nothing (syntax / preprocessing error, also behind an __EVAL, "
+                       "preprocess only, transpile, invalid type, config load ok / failing, status) then idle time 0, 0.1, 0.5, 0.9, 1, 1.1, 3, 50, "
+                       "10^5 x limit then a run (short, 50-80 % of the limit, with __EVAL, 12 kinds of endless program, a finite program of 1.5-3 "
+                       "limits), a short run, an endless run; and random histories of 3-9 such calls. Every run within the limit completes with "
+                       "exactly its markers and 0, every other is cut with -6, the message of the limit, status 0, not before and at most 5 ticks "
+                       "after limit, having logged what it logs at its start")
+    run.cov["input_distribution"] = dict(kinds, runs_cut=ncut, runs_complete=ncomplete, caps_checked=ncap, expressions_evaluated_like_EVAL=neval,
+                                         c_api_runs_complete=api_stats.get("complete", 0), c_api_runs_cut=api_stats.get("cut", 0),
+                                         c_api_calls_executing_nothing=api_stats.get("noexec", 0), c_api_returns_of_those=api_stats.get("noexec_returns", {}))
     run.cov["samples"] = samples
     run.cov["constants"] = consts
     run.cov["trusted_base"] = ["Coq 8.16.1 kernel (vm_compute in Examples and the two switch-on witnesses)", "ExtrOcamlBasic extraction + ocaml/sched_driver.ml",
-                               "harness/h_sched.cpp (virtual clock by clock_gettime interposition, fork plumbing)",
+                               "harness/h_sched.cpp (virtual clock by clock_gettime interposition, fork plumbing; C API histories: the message of the limit is recognised by the text logmessage::runtime::MaximumRuntimeReached formats)",
                                "translators/consts.py (regex over runtime.cpp, runtime.h, ops_generic.cpp)",
                                "model VM/VmDefs.v, VM/VmExec.v, VM/SchedDefs.v hand-written; tied to runtime.cpp/frame.h/ops_generic.cpp only by differential runs"]
     return run.finish()
